@@ -168,7 +168,7 @@ pub fn gen_prog(r: &mut Rng) -> Prog {
     Prog { nvars: nv, nq, take: 0, body, raw: false }
 }
 
-fn shift_goal(g: &PG, f: &dyn Fn(&T) -> T) -> PG {
+pub fn shift_goal(g: &PG, f: &dyn Fn(&T) -> T) -> PG {
     match g {
         PG::InFd(x, d) => PG::InFd(f(x), d.clone()),
         PG::PlusFd(a, b, c) => PG::PlusFd(f(a), f(b), f(c)),
